@@ -300,7 +300,45 @@ var extraTypes = []string{"DirEntries", "TxnResults"}
 type gen struct {
 	r      *hx.RNG
 	nextID int
-	malf   bool // allow inputs on which the code panics (nil pointers)
+	malf   bool   // allow inputs on which the code panics (nil pointers)
+	nodeKind, subKind byte
+	z      *authz // the authorizer the case will be filtered with (only to bias names towards mixed outcomes)
+}
+
+// nameFor picks a name; in 55% of the draws one the authorizer lets read for that kind (if any), so
+// that entries needing two permissions are not almost always dropped.
+func (g *gen) nameFor(kind byte, nonEmpty bool) string {
+	lo := 0
+	if nonEmpty {
+		lo = 1
+	}
+	if g.z != nil && g.r.Chance(55) {
+		var ok []string
+		for _, n := range names[lo:] {
+			var y bool
+			switch kind {
+			case 'n':
+				y = g.z.node(n)
+			case 's':
+				y = g.z.svcOpt(n)
+			case 'e':
+				y = g.z.session(n)
+			case 'k':
+				y = g.z.key(n)
+			case 'i':
+				y = g.z.ixn(n)
+			case 'q':
+				y = g.z.query(n)
+			}
+			if y {
+				ok = append(ok, n)
+			}
+		}
+		if len(ok) > 0 {
+			return ok[g.r.Intn(len(ok))]
+		}
+	}
+	return names[lo+g.r.Intn(len(names)-lo)]
 }
 
 func (g *gen) id() int { g.nextID++; return g.nextID }
@@ -309,7 +347,7 @@ func (g *gen) name() string {
 }
 func (g *gen) nonEmpty() string { return names[1+g.r.Intn(len(names)-1)] }
 func (g *gen) n() int {
-	switch x := g.r.Intn(10); {
+	switch x := g.r.Intn(20); {
 	case x == 0:
 		return 0
 	case x < 3:
@@ -323,7 +361,7 @@ func sp(s string) *string { return &s }
 func (g *gen) csns() []csnT {
 	var xs []csnT
 	for i, n := 0, g.n(); i < n; i++ {
-		c := csnT{node: sp(g.nonEmpty()), svc: sp(g.name()), id: g.id()}
+		c := csnT{node: sp(g.nameFor('n', true)), svc: sp(g.nameFor('s', false)), id: g.id()}
 		if g.malf && g.r.Chance(12) {
 			if g.r.Bool() {
 				c.node = nil
@@ -341,7 +379,7 @@ func (g *gen) csns() []csnT {
 func (g *gen) nodeEnts() []nodeEnt {
 	var xs []nodeEnt
 	for i, n := 0, g.n(); i < n; i++ {
-		c := nodeEnt{g.name(), g.id()}
+		c := nodeEnt{g.nameFor(g.nodeKind, false), g.id()}
 		if len(xs) > 0 && g.r.Chance(15) {
 			c = xs[g.r.Intn(len(xs))]
 		}
@@ -352,7 +390,7 @@ func (g *gen) nodeEnts() []nodeEnt {
 func (g *gen) svcEnts() []svcEnt {
 	var xs []svcEnt
 	for i, n := 0, g.n(); i < n; i++ {
-		c := svcEnt{g.nonEmpty(), g.name(), g.id()}
+		c := svcEnt{g.nameFor('n', true), g.nameFor('s', false), g.id()}
 		if len(xs) > 0 && g.r.Chance(15) {
 			c = xs[g.r.Intn(len(xs))]
 		}
@@ -363,7 +401,7 @@ func (g *gen) svcEnts() []svcEnt {
 func (g *gen) subs() []subT {
 	var xs []subT
 	for i, n := 0, g.n(); i < n; i++ {
-		xs = append(xs, subT{g.name(), g.id()})
+		xs = append(xs, subT{g.nameFor(g.subKind, false), g.id()})
 	}
 	return xs
 }
@@ -378,14 +416,14 @@ func (g *gen) uniqueKeys(n int) []string {
 func (g *gen) gws() []gwT {
 	var xs []gwT
 	for i, n := 0, g.n(); i < n; i++ {
-		xs = append(xs, gwT{g.name(), g.name(), g.id()})
+		xs = append(xs, gwT{g.nameFor('s', false), g.nameFor('s', false), g.id()})
 	}
 	return xs
 }
 func (g *gen) dump() []nodeInfoT {
 	var xs []nodeInfoT
 	for i, n := 0, g.n(); i < n; i++ {
-		x := nodeInfoT{node: g.nonEmpty(), id: g.id()}
+		x := nodeInfoT{node: g.nameFor('n', true), id: g.id()}
 		if g.r.Chance(80) {
 			x.svcs = g.subs()
 		}
@@ -400,6 +438,13 @@ func (g *gen) dump() []nodeInfoT {
 // generate builds a random payload for type key ty.
 func (g *gen) generate(ty string) *payload {
 	p := &payload{}
+	g.nodeKind, g.subKind = 'n', 's'
+	if ty == "IndexedSessions" {
+		g.nodeKind = 'e'
+	}
+	if ty == "DirEntries" {
+		g.subKind = 'k'
+	}
 	accum := ty == "IndexedServiceTopology" || ty == "IndexedNodeDump" || ty == "IndexedExportedServiceList" || ty == "IndexedNodesWithGateways"
 	if g.r.Chance(10) { // incoming flag already set: "assign" and "only set" cases differ
 		p.flag = true
@@ -425,11 +470,11 @@ func (g *gen) generate(ty string) *payload {
 		p.svcs = g.svcEnts()
 	case "IndexedIntentions":
 		for i, n := 0, g.n(); i < n; i++ {
-			p.ixns = append(p.ixns, ixnT{g.name(), g.r.Chance(20), g.name(), g.id()})
+			p.ixns = append(p.ixns, ixnT{g.nameFor('i', false), g.r.Chance(20), g.nameFor('i', false), g.id()})
 		}
 	case "IntentionQueryMatch":
 		for i, n := 0, g.n(); i < n; i++ {
-			p.names = append(p.names, g.name())
+			p.names = append(p.names, g.nameFor('i', false))
 		}
 	case "IndexedNodeDump":
 		p.dump[0] = g.dump()
@@ -438,9 +483,9 @@ func (g *gen) generate(ty string) *payload {
 		}
 	case "IndexedServiceDump":
 		for i, n := 0, g.n(); i < n; i++ {
-			s := svcInfoT{gs: &[2]string{g.name(), g.name()}, id: g.id()}
+			s := svcInfoT{gs: &[2]string{g.nameFor('s', false), g.nameFor('s', false)}, id: g.id()}
 			if g.r.Chance(70) {
-				s.node = sp(g.nonEmpty())
+				s.node = sp(g.nameFor('n', true))
 			}
 			if g.malf && g.r.Chance(12) {
 				s.gs = nil
@@ -451,7 +496,7 @@ func (g *gen) generate(ty string) *payload {
 		if g.r.Chance(10) {
 			p.nsNil = true
 		} else {
-			p.nsNode = sp(g.nonEmpty())
+			p.nsNode = sp(g.nameFor('n', true))
 			idNeName := g.r.Chance(60) // service registered under an ID different from its name
 			for _, k := range g.uniqueKeys(g.n()) {
 				if k == "" {
@@ -466,7 +511,7 @@ func (g *gen) generate(ty string) *payload {
 		}
 	case "IndexedNodeServiceList":
 		if !g.r.Chance(10) {
-			p.nsNode = sp(g.nonEmpty())
+			p.nsNode = sp(g.nameFor('n', true))
 		}
 		p.subs = g.subs()
 	case "IndexedServices":
@@ -479,18 +524,18 @@ func (g *gen) generate(ty string) *payload {
 			n = 1
 		}
 		for i := 0; i < n; i++ {
-			q := pqT{name: g.name(), tmpl: g.r.Chance(20), tok: g.r.Intn(2), id: g.id()}
+			q := pqT{name: g.nameFor('q', false), tmpl: g.r.Chance(20), tok: g.r.Intn(2), id: g.id()}
 			p.pqs = append(p.pqs, q)
 		}
 	case "IndexedServiceList":
 		for i, n := 0, g.n(); i < n; i++ {
-			p.names = append(p.names, g.name())
+			p.names = append(p.names, g.nameFor('s', false))
 		}
 	case "IndexedExportedServiceList":
 		for _, k := range g.uniqueKeys(g.r.Intn(4)) {
 			var xs []string
 			for i, n := 0, g.n(); i < n; i++ {
-				xs = append(xs, g.name())
+				xs = append(xs, g.nameFor('s', false))
 			}
 			p.exported = append(p.exported, keyedNames{k, xs})
 		}
@@ -508,10 +553,10 @@ func (g *gen) generate(ty string) *payload {
 			t := txnT{kind: "knsce"[g.r.Intn(5)], id: g.id()}
 			switch t.kind {
 			case 'c':
-				t.a, t.b = g.nonEmpty(), g.name()
+				t.a, t.b = g.nameFor('n', true), g.nameFor('s', false)
 			case 'e':
 			default:
-				t.a = g.name()
+				t.a = g.nameFor(map[byte]byte{'k': 'k', 'n': 'n', 's': 's'}[t.kind], false)
 			}
 			p.txns = append(p.txns, t)
 		}
